@@ -1356,4 +1356,17 @@ pub fn ligate_input(
 #[allow(unused_imports, dead_code, missing_docs)]
 pub mod verif_hooks {
     use super::*;
+
+    /// C05: the PRNG of the `rand` feature as a fresh apply context has it: initial `random_state` followed by
+    /// the first `n` values of `random_number()`.
+    pub fn random_sequence(face: &hb_font_t, n: usize) -> alloc::vec::Vec<u32> {
+        let mut buffer = hb_buffer_t::new();
+        let mut ctx = hb_ot_apply_context_t::new(TableIndex::GSUB, face, &mut buffer);
+        let mut v = alloc::vec::Vec::with_capacity(n + 1);
+        v.push(ctx.random_state);
+        for _ in 0..n {
+            v.push(ctx.random_number());
+        }
+        v
+    }
 }
